@@ -97,7 +97,11 @@ def gen(rng, idx, tier):
         scripts = rng.sample(S.ALL_SCRIPTS, 3)
     if rng.random() < 0.25 and "Arab" not in scripts:
         scripts[-1] = "Arab"
-    glyphs, desc = S.repertoire(rng, scripts=scripts, n=rng.choice([4, 6, 8, 9]),
+    chain = rng.random() < 0.06
+    if chain:
+        # kerning whose script sets overlap only pairwise (cross-script classes), see C05
+        scripts = rng.sample(["Latn", "Cyrl", "Grek"], 3) + (["Hira"] if rng.random() < 0.6 else [])
+    glyphs, desc = S.repertoire(rng, scripts=scripts, n=12 if chain else rng.choice([4, 6, 8, 9]),
                                 n_marks=rng.choice([1, 2, 3]),
                                 n_unencoded=rng.choice([0, 1, 2, 3]), double_encoded=0.03)
     by_name = {g["name"]: g for g in glyphs}
@@ -124,6 +128,12 @@ def gen(rng, idx, tier):
         kerned = rng.sample(scripts, rng.randint(1, len(scripts) - 1))
     kdesc = {n: d for n, d in desc.items() if set(d["script"]) & set(kerned)}
     kerning, groups = S.script_kerning(rng, kdesc, per_script=rng.choice([1, 2, 3]))
+    if chain:
+        from vf.props.c05 import script_chain_kerning
+        ck = script_chain_kerning(rng, desc, [])
+        if ck:
+            kerning, groups = ck
+            kerned = list(scripts)
     if rng.random() < 0.3:
         neutral = [n for n, d in desc.items() if d["kind"] in ("common", "digit")
                    and n not in ("space", ".notdef") and set(d["script"]) <= {"Zyyy"}]
